@@ -90,6 +90,14 @@ func (c *StandardClass) Hierarchy() []slip.Symbol {
 
 // Inherits returns true if this Class inherits from a specified Class.
 func (c *StandardClass) Inherits(sc slip.Class) bool {
+	// The base class, standard-object or condition, is on the precedence
+	// list of every class that is ready even when no class names it.
+	return c.inheritsNamed(sc) || (0 < len(c.precedence) && sc.Name() == string(c.baseClass))
+}
+
+// inheritsNamed returns true if the class is on the inherit list, the named
+// superclasses and theirs.
+func (c *StandardClass) inheritsNamed(sc slip.Class) bool {
 	for _, c2 := range c.inherit {
 		if c2.Name() == sc.Name() {
 			return true
@@ -346,7 +354,7 @@ func (c *StandardClass) mergeSupers() bool {
 			c.precedence = c.precedence[:0]
 			return false
 		}
-		if c.Inherits(ssc) {
+		if c.inheritsNamed(ssc) {
 			continue
 		}
 		// Place all direct classes on the list first.
@@ -357,7 +365,7 @@ func (c *StandardClass) mergeSupers() bool {
 	for _, ic := range ics {
 		sc := c.inheritCheck(ic)
 		for _, super := range sc.inherit {
-			if !c.Inherits(super) {
+			if !c.inheritsNamed(super) {
 				c.inherit = append(c.inherit, super)
 			}
 		}
